@@ -36,7 +36,7 @@ ASSUMPTIONS = [
 
 
 def examples(tier):
-    return 800 if tier == "quick" else 16000
+    return 2400 if tier == "quick" else 24000
 
 
 @st.composite
